@@ -186,11 +186,11 @@ theorem attr_changes_only_selected (n : QName) (v : Option Str) (segs : List Seg
 
 /-! ## every operation keeps a `Good`, well-nested stream well nested (and `Good`) -/
 
-theorem wrap_preserves_wellnested (t : QName) (a : AttrList) {s : MStream} (hg : Good s)
-    (hwn : WellNested (unmark s)) :
-    WellNested (unmark (wrap [.start t a] (.end_ t) s)) ∧ Good (wrap [.start t a] (.end_ t) s) := by
-  have hw : Wrapper (unmark (inj ([Event.start t a].map MEv.ev))) (unmark [(none, MEv.ev (.end_ t))]) := by
-    simpa [inj, unmark] using wrapper_elem t a
+theorem wrap_preserves_wellnested (t : QName) (a : AttrList) (kids : Stream) (hk : Bal kids)
+    {s : MStream} (hg : Good s) (hwn : WellNested (unmark s)) :
+    WellNested (unmark (wrap (.start t a :: kids) (.end_ t) s)) ∧ Good (wrap (.start t a :: kids) (.end_ t) s) := by
+  have hw : Wrapper (unmark (inj ((Event.start t a :: kids).map MEv.ev))) (unmark [(none, MEv.ev (.end_ t))]) := by
+    rw [unmark_inj_ev]; simpa [unmark] using wrapper_elem_kids t a hk
   exact ⟨runGo_wn true hw hg hwn,
     (runGo_good true (inj_noneMarked _) (by intro p hp; simp at hp; simp [hp]) hg).1⟩
 
@@ -305,14 +305,14 @@ theorem before_after_any_stream (c : List MEv) (hc : Bal (evsOf c)) (s : MStream
 def qn (c : Char) : QName := ⟨[], [c]⟩
 
 /-- non-vacuity: an admissible chain of four operations on a concrete document -/
-example : Admissible true [.select [.none, .hit, .none], .prepend (.str ['Z']), .wrap (qn 'w') [], .rename (qn 'n')] ∧
-    chainSelOk [.select [.none, .hit, .none], .prepend (.str ['Z']), .wrap (qn 'w') [], .rename (qn 'n')] []
+example : Admissible true [.select [.none, .hit, .none], .prepend (.str ['Z']), .wrap (qn 'w') [] [], .rename (qn 'n')] ∧
+    chainSelOk [.select [.none, .hit, .none], .prepend (.str ['Z']), .wrap (qn 'w') [] [], .rename (qn 'n')] []
       (markAll [.start (qn 'r') [], .start (qn 'a') [], .text ['t'] false, .end_ (qn 'a'), .end_ (qn 'r')]) = true ∧
-    transform [.select [.none, .hit, .none], .prepend (.str ['Z']), .wrap (qn 'w') [], .rename (qn 'n')]
+    transform [.select [.none, .hit, .none], .prepend (.str ['Z']), .wrap (qn 'w') [] [], .rename (qn 'n')]
       [.start (qn 'r') [], .start (qn 'a') [], .text ['t'] false, .end_ (qn 'a'), .end_ (qn 'r')] =
     some [.start (qn 'r') [], .start (qn 'w') [], .start (qn 'n') [], .text ['Z'] false, .text ['t'] false,
       .end_ (qn 'n'), .end_ (qn 'w'), .end_ (qn 'r')] := by
-  refine ⟨by simp [Admissible, Op.OkGood, Op.next, Content.Ok], by decide, by decide⟩
+  refine ⟨by simp [Admissible, Op.OkGood, Op.next, Content.Ok, Bal.nil], by decide, by decide⟩
 
 /-- non-vacuity: a chain that cuts a selection into a buffer and injects it elsewhere,
     `Transformer('b').cut(buf).end().buffer().select('a').append(buf)` on `<r><a/><b/></r>` -/
@@ -330,7 +330,7 @@ example :
     selected elements, which cut through elements; wrapping them is ill nested.
     `<r><a/></r>` | Transformer('a').invert().wrap('w')  =  `<w><r></w><a/><w></r></w>`. -/
 theorem invert_wrap_breaks_nesting :
-    ∃ out, transform [.select [.none, .hit, .none], .invert, .wrap (qn 'w') []]
+    ∃ out, transform [.select [.none, .hit, .none], .invert, .wrap (qn 'w') [] []]
       [.start (qn 'r') [], .start (qn 'a') [], .end_ (qn 'a'), .end_ (qn 'r')] = some out ∧
       ¬ WellNested out :=
   ⟨[.start (qn 'w') [], .start (qn 'r') [], .end_ (qn 'w'), .start (qn 'a') [], .end_ (qn 'a'),
@@ -340,7 +340,7 @@ theorem invert_wrap_breaks_nesting :
     front of its element, so wrap() on it emits an empty wrapper element.
     `<r><a x="1"/></r>` | Transformer('a/@x').wrap('w')  =  `<r><w/><a x="1"/></r>`. -/
 theorem attr_wrap_emits_empty_wrapper :
-    transform [.select [.none, .attrs [(qn 'x', ['1'])], .none, .none], .wrap (qn 'w') []]
+    transform [.select [.none, .attrs [(qn 'x', ['1'])], .none, .none], .wrap (qn 'w') [] []]
       [.start (qn 'r') [], .start (qn 'a') [(qn 'x', ['1'])], .end_ (qn 'a'), .end_ (qn 'r')] =
     some [.start (qn 'r') [], .start (qn 'w') [], .end_ (qn 'w'), .start (qn 'a') [(qn 'x', ['1'])],
       .end_ (qn 'a'), .end_ (qn 'r')] := by decide
